@@ -419,6 +419,16 @@ impl Session {
         }
     }
 
+    // orderly shutdown of the sending direction only: the client keeps reading
+    pub async fn half_close(&mut self, id: &str) {
+        if let Some(c) = self.clients.get_mut(id) {
+            if let Some(s) = c.stream.as_mut() {
+                let _ = s.shutdown().await;
+            }
+            c.half_closed = true;
+        }
+    }
+
     // Wait until the server has nothing left to do: every connection has consumed and
     // answered what was written to it, every queued line is delivered (or dropped with
     // its ended receiver) and every KILL/DIE signal is handled.  No sleeping on guesses:
